@@ -168,6 +168,34 @@ def judge_program(pr, stats, add7, add17):
                 run['events'], run['statements'], 'failed',
                 run['lock_before'], run['lock_after'], purge=pr.purge):
             add17('C17|%s|fault|%s' % (clause, where), pr, k, detail)
+        # retry on the very Evolver that failed (evolve() may be called
+        # again as long as it has not succeeded), the cause removed; only
+        # where the failed run left the database as it was (otherwise that
+        # is already reported and the prepared state is stale by definition)
+        ev = getattr(res, 'evolver', None)
+        if ev is not None and res.stage == 'execute' and not pr.purge \
+                and post == pre:
+            image_failed = B.snapshot(pr.db)
+            res1 = D.RunResult()
+            try:
+                ev.evolve()
+                res1.ok = True
+            except Exception as e:  # noqa
+                res1.exc = e
+                D._abort_transactions(pr.db)
+            stats['runs'] += 1
+            stats['same_evolver_retries'] = \
+                stats.get('same_evolver_retries', 0) + 1
+            if not res1.ok:
+                add7('C07|retry-on-the-same-evolver-fails|%s|%s' % (
+                    c03.norm_msg(str(getattr(res1.exc, 'detailed_error',
+                                             None) or res1.exc)), where),
+                     pr, k, {'error': str(res1.exc)[:300]})
+            elif EB.canonical_state(alias=pr.db) != good:
+                add7('C07|retry-on-the-same-evolver-differs|%s|%s' % (
+                    diff_kind(good, EB.canonical_state(alias=pr.db)),
+                    where), pr, k, {})
+            B.restore(image_failed, pr.db)
         # retry without the fault, on the database as the failed run left it
         B.reset_globals()
         MZ.install(pr.final)
